@@ -2,6 +2,7 @@ package main
 
 import (
 	"fmt"
+	"math"
 	"sort"
 	"strings"
 
@@ -76,6 +77,17 @@ func ival(v int64) *pb.TypedValue {
 		return &pb.TypedValue{Value: &pb.TypedValue_UintVal{UintVal: 1}}
 	case 1004:
 		return &pb.TypedValue{Value: &pb.TypedValue_StringVal{StringVal: "1"}}
+	// structured kinds and NaN: the cache stores and relays them, but value.Equal
+	// never calls two of them equal, so they are never suppressed; a re-sent
+	// identical notification is still stale
+	case 1005:
+		return &pb.TypedValue{Value: &pb.TypedValue_JsonVal{JsonVal: []byte(`{"a":1}`)}}
+	case 1006:
+		return &pb.TypedValue{Value: &pb.TypedValue_JsonVal{JsonVal: []byte(`{"a":2}`)}}
+	case 1007:
+		return &pb.TypedValue{Value: &pb.TypedValue_AsciiVal{AsciiVal: "up"}}
+	case 1008:
+		return &pb.TypedValue{Value: &pb.TypedValue_DoubleVal{DoubleVal: math.NaN()}}
 	}
 	return &pb.TypedValue{Value: &pb.TypedValue_IntVal{IntVal: v}}
 }
@@ -194,7 +206,33 @@ func detBytes(m proto.Message) string {
 	if err != nil {
 		return "ERR:" + err.Error()
 	}
+	if tv, ok := m.(*pb.TypedValue); ok && !suppressible(tv) {
+		return notComparable + fmt.Sprintf("%x", b)
+	}
 	return fmt.Sprintf("%x", b)
+}
+
+// notComparable marks rendered values of kinds that value.Equal (the
+// suppression test) never considers equal to anything: structured kinds and NaN.
+const notComparable = "NC:"
+
+func suppressible(tv *pb.TypedValue) bool {
+	switch v := tv.GetValue().(type) {
+	case *pb.TypedValue_StringVal, *pb.TypedValue_IntVal, *pb.TypedValue_UintVal, *pb.TypedValue_BoolVal, *pb.TypedValue_BytesVal, *pb.TypedValue_DecimalVal:
+		return true
+	case *pb.TypedValue_DoubleVal:
+		return v.DoubleVal == v.DoubleVal
+	case *pb.TypedValue_FloatVal:
+		return v.FloatVal == v.FloatVal
+	case *pb.TypedValue_LeaflistVal:
+		for _, e := range v.LeaflistVal.GetElement() {
+			if !suppressible(e) {
+				return false
+			}
+		}
+		return true
+	}
+	return false
 }
 
 func sortedKeys[V any](m map[string]V) []string {
